@@ -565,6 +565,7 @@ class DynDiGraph(nx.DiGraph):
 
         # add the interaction
         datadict = self.adj[u].get(v, self.edge_attr_dict_factory())
+        known = [list(i) for i in datadict.get('t', [])]
 
         if 't' in datadict:
             app = datadict['t']
@@ -611,20 +612,13 @@ class DynDiGraph(nx.DiGraph):
         else:
             datadict['t'] = [t]
 
-        if e is not None:
-            span = range(t[0], t[1] + 1)
-            for idt in span:
-                if idt not in self.snapshots:
-                    self.snapshots[idt] = 1
-                else:
-                    self.snapshots[idt] += 1
-        else:
-            for idt in t:
-                if idt is not None:
-                    if idt not in self.snapshots:
-                        self.snapshots[idt] = 1
-                    else:
-                        self.snapshots[idt] += 1
+        # per-snapshot counters hold two units per interaction (halved on read): count
+        # every instant of the span at which the pair was not present already
+        for idt in range(t[0], t[1] + 1):
+            if idt not in self.snapshots:
+                self.snapshots[idt] = 0
+            if not any(i[0] <= idt <= i[1] for i in known):
+                self.snapshots[idt] += 2
 
         self._succ[u][v] = datadict
         self._pred[v][u] = datadict
